@@ -29,12 +29,14 @@ TABLE['C01'] = dict(
     ])
 
 TABLE['C02'] = dict(
-    imports=[A + 'Assembly', A + 'Glue', A + 'BridgeBC', A + 'MomentsThm', A + 'RewardsThm'],
+    imports=[A + 'Corollaries', A + 'Assembly', A + 'Glue', A + 'BridgeBC', A + 'MomentsThm', A + 'RewardsThm'],
     summary='Proved for all inputs: block-counting generator = projection of the labelled coalescent on typed blocks (all three '
             'models incl. multiple mergers), matrix rows represent it, equal moments for SFS rewards; padding puts bin i at '
             'index i with zeros at 0 and n; cov is the symmetrised second moment minus the outer product of means. '
             'Partial: PT1/PT3, floating point.',
     theorems=[
+        ('cov_routes_agree', 'PG.Corollaries.cov_routes_agree', 'sfs.cov (symmetrised ordered second moments minus outer product of means) equals get_cov (centred, permutation-averaged moment) entry by entry'),
+        ('cov_diag_is_var', 'PG.Corollaries.cov_routes_agree_diag', 'and its diagonal is the variance'),
         ('sfs_eq_labelled', 'PG.Assembly.C02_sfs_eq_labelled', 'HEADLINE: every moment on the block-counting chain (SFS rewards included) equals the moment of the labelled coalescent on typed blocks'),
         ('sfs_eq_labelled_alpha', 'PG.Assembly.C02_sfs_eq_labelled_alpha', 'with the initial vector the code uses'),
         ('lumping_block', 'PG.C04_lumping_block', 'block-counting generator of the code = labelled generator on typed blocks projected onto counts'),
@@ -52,12 +54,14 @@ TABLE['C02'] = dict(
     ])
 
 TABLE['C03'] = dict(
-    imports=[A + 'MeanIncrement', A + 'Assembly', A + 'Glue', A + 'Bridge', A + 'BridgeTwoLocus', A + 'RewardsThm'],
+    imports=[A + 'TwoLocusInit', A + 'Corollaries', A + 'MeanIncrement', A + 'Assembly', A + 'Glue', A + 'Bridge', A + 'BridgeTwoLocus', A + 'RewardsThm'],
     summary='Proved: cdf of the code chain = cdf of the labelled chain (lump_cdf + bridges, one and two loci); cdf in [0,1] and '
             'non-decreasing along any extension of the factor list (from the four laws); the sorted sweep and `_update` are '
             'direct evaluation, also exactly on epoch boundaries; the bisection returns m with |F m - q| <= precision. '
             'Partial: integral of 1-cdf = mean (analysis), pdf (numerical differentiation), PT2.',
     theorems=[
+        ('cdf_zero', 'PG.Corollaries.cdf_zero_code', 'cdf(0) = 0 when the initial state is not absorbing (n >= 2)'),
+        ('moment_zero_at_time_zero', 'PG.Corollaries.accumVal_time_zero', 'no time, no accumulated reward'),
         ('mean_is_integral_of_survival', 'PG.mean_increment_eq_integral', 'for the real matrix exponential: mean(t + tau) - mean(t) = integral over [0, tau] of 1 - cdf(t + s), within any epoch after any history'),
         ('van_loan_integral', 'PG.vanLoan_topRight_eq_integral', 'Van Loan (1978): block (0,1) of exp(tau V) is the integral of exp(sS) diag(r) exp((tau-s)S)'),
         ('mean_increment', 'PG.accum_increment', 'from the four laws: the mean accumulated over a further piece of time depends only on the distribution at its start'),
@@ -75,13 +79,17 @@ TABLE['C03'] = dict(
     ])
 
 TABLE['C04'] = dict(
-    imports=[A + 'DriverPath', A + 'Assembly', A + 'Bridge', A + 'BridgeBC', A + 'BridgeTwoLocus'],
+    imports=[A + 'TwoLocusInit', A + 'DriverPath', A + 'Assembly', A + 'Bridge', A + 'BridgeBC', A + 'BridgeTwoLocus'],
     summary='Proved for every n, every number of demes, all rates (unbounded, subsuming the bound of the property): the three '
             'state spaces are exact lumpings of the labelled particle system (lineage counting and block counting for Kingman, '
             'Beta, Dirac; two loci for Kingman), BFS returns each reachable state once, closed under transitions, rate matrix '
             'rows represent the generator and sum to zero, rates are non-negative, absorbing states only migrate. The exact '
             'difference between the code and the unstopped ARG at absorbing two-locus states is QCs_absorbing. Partial: PT3.',
     theorems=[
+        ('two_locus_all_visited', 'PG.TwoLocusInit.two_locus_all_visited', 'two loci: from the all-unlinked start every state with n lineages at both loci is reached (zero-rate edges included), for every D'),
+        ('two_locus_alpha', 'PG.TwoLocusInit.two_locus_alpha', 'two-locus alpha is uniform over exactly the visited states matching the sample and the linkage'),
+        ('two_locus_alpha_sum', 'PG.TwoLocusInit.two_locus_alpha_sum', 'and sums to one'),
+        ('two_locus_n_one', 'PG.TwoLocusInit.two_locus_alpha_n_one', 'documented: for n = 1 no state passes the test (alpha would be 0/0); the properties require n >= 2'),
         ('driver_matrix', 'PG.denseGen_sparseRows', 'the dense generator the DRIVER builds equals rateEntry entry by entry'),
         ('driver_matrix_is_codeMat', 'PG.codeMat_eq_denseGen_bfs', 'hence equals the matrices of the headline theorems'),
         ('all_sample_configs_visited', 'PG.Assembly.lineage_all_configs_visited', 'every count vector with the right total is a state'),
@@ -136,12 +144,14 @@ TABLE['C05'] = dict(
     ])
 
 TABLE['C06'] = dict(
-    imports=[A + 'Assembly', A + 'BridgeTwoLocus', A + 'Marginal', A + 'RewardsThm'],
+    imports=[A + 'TwoLocusInit', A + 'Assembly', A + 'BridgeTwoLocus', A + 'Marginal', A + 'RewardsThm'],
     summary='Proved: the two-locus chain is the lumping of the ARG particle system; each locus is a strong lumping onto the '
             'single-locus chain for EVERY recombination rate, hence equal marginal moments/cdf of every order; at r = 0 from a '
             'fully linked start the loci coincide on every reachable state, so cross moments equal second moments; locus '
             'rewards and the CombinedReward substitution. Partial: r -> infinity (limit), PT1/PT3.',
     theorems=[
+        ('arg_eq_labelled_any_linkage', 'PG.TwoLocusInit.C06_arg_eq_labelled_alpha_init', 'single deme, any number of initially unlinked lineages: moments with the alpha the code uses equal those of the labelled stopped ARG'),
+        ('initial_linkage', 'PG.TwoLocusInit.two_locus_alpha_one_deme_init', 'alpha is the point mass at (n-u linked, u + u unlinked)'),
         ('arg_eq_labelled', 'PG.Assembly.C06_arg_eq_labelled', 'HEADLINE: every two-locus moment of the code equals the moment of the labelled ancestral recombination graph stopped at absorption'),
         ('stopped_arg_generator', 'PG.Assembly.QCs_argRateStop', 'the stopped ARG: full generator before absorption, migration only afterwards'),
         ('lumping_two_locus', 'PG.C04_lumping_two_locus', 'two-locus generator = ARG particle system projected onto counts'),
@@ -196,11 +206,17 @@ TABLE['C08'] = dict(
     ])
 
 TABLE['C09'] = dict(
-    imports=[A + 'VanLoan', A + 'RatesThm'],
+    imports=[A + 'Corollaries', A + 'VanLoan', A + 'RatesThm'],
     summary='Proved for every k, every epoch list and every exponential obeying the laws: durations times c with generators divided '
             'by c multiply the k-th moment by c^k and leave the cdf unchanged; the regularisation factor cancels exactly; model time '
             'scales (Kingman, Dirac N^2, Beta N^(alpha-1) with real powers) scale as stated. Partial: 1e-9 accuracy of floats.',
     theorems=[
+        ('code_moments_rescale', 'PG.Corollaries.C09_lineage_moments', 'HEADLINE: on the BFS graphs the code builds, time scales times c and migration rates divided by c multiply every k-th moment by c^k (durations times c)'),
+        ('code_cdf_rescale', 'PG.Corollaries.C09_lineage_cdf', 'and leave the cdf unchanged'),
+        ('transit_rescale_lineage', 'PG.Corollaries.genOf_transit_lineage_rescale', 'the code model transit scales by 1/c (lineage counting)'),
+        ('transit_rescale_block', 'PG.Corollaries.genOf_transit_block_rescale', 'block counting'),
+        ('transit_rescale_two_locus', 'PG.Corollaries.genOf_transit_two_locus_rescale', 'two loci (recombination rate divided by c)'),
+        ('popsize_rescale', 'PG.Corollaries.genOf_transit_lineage_popsize_rescale', 'all population sizes times a: generators divided by the model time factor (a, or a^2 for Dirac)'),
         ('moment_rescale', 'PG.accumVal_time_rescale', 'time unit change by c: k-th moment times c^k'),
         ('cdf_rescale', 'PG.cdfVal_time_rescale', 'cdf(c t) unchanged'),
         ('regularise', 'PG.accumVal_scale', 'regularisation factor cancels'),
@@ -254,11 +270,14 @@ TABLE['C11'] = dict(
     ])
 
 TABLE['C12'] = dict(
-    imports=[A + 'DemePerm', A + 'Conservation', A + 'RewardsThm', A + 'SampleConsistency', A + 'Marginal', A + 'MomentsThm'],
+    imports=[A + 'Corollaries', A + 'DemePerm', A + 'Conservation', A + 'RewardsThm', A + 'SampleConsistency', A + 'Marginal', A + 'MomentsThm'],
     summary='Proved: deme rewards sum to one and product rewards decompose, per-locus branch rewards sum to the total, first moments are '
             'linear (means decompose), covariance is symmetric; a set of states that is never entered contributes nothing '
             '(accumVal_congr_closed). Partial: positive semi-definiteness needs the probabilistic representation PT1.',
     theorems=[
+        ('empty_deme_zero', 'PG.Corollaries.C12_lineage_code', 'HEADLINE: on the code matrices, a deme with no sample and no migration into it has marginal moments exactly 0'),
+        ('empty_deme_zero_generic', 'PG.Corollaries.C12_zero_deme', 'generic form'),
+        ('zero_slot', 'PG.Corollaries.accumVal_zero_slot', 'a moment with a vanishing reward slot is 0'),
         ('cov_sum', 'PG.Conservation.sum_cov', 'covariances of parts sum to the variance of the total'),
         ('cov_bilinear', 'PG.Conservation.covVal_bilinear', 'covariance is bilinear over weighted finite sums'),
         ('mean_transfer', 'PG.Conservation.mean_of_pointwise', 'any pointwise linear identity between rewards passes to means'),
@@ -314,12 +333,13 @@ TABLE['C14'] = dict(
     ])
 
 TABLE['C15'] = dict(
-    imports=[A + 'RoutesThm', A + 'Conservation', A + 'MomentsThm', A + 'RewardsThm', A + 'SampleConsistency'],
+    imports=[A + 'Corollaries', A + 'RoutesThm', A + 'Conservation', A + 'MomentsThm', A + 'RewardsThm', A + 'SampleConsistency'],
     summary='Proved: centring = binomial / inclusion-exclusion combination of raw moments = central moment of any linear expectation '
             '(all k), explicit k = 2, 3; permutation averaging makes cross moments symmetric (all permutations); additivity in each '
             'reward slot; unit reward neutral in products; covariance assembly symmetric. Routes: cached properties, dist.moment and '
             'Coalescent.moment all unfold to accumulateModel of the same raw function (model level). Partial: PSD (needs PT1).',
     theorems=[
+        ('cov_routes_agree', 'PG.Corollaries.cov_routes_agree', 'the matrix route and the element route to a covariance agree'),
         ('multilinear', 'PG.Conservation.accumVal_slot_linear', 'moments are linear in every reward slot (SumReward / scalar ProductReward act linearly), all k'),
         ('memo_keys_injective', 'PG.Reward.keys_injective', 'two different reward tuples never share a memoisation key (key = class name + parameters, as in Reward.__hash__)'),
         ('state_space_choice', 'PG.chooseSpace_lineageCounting', 'if _get_dist picks the lineage-counting space every reward of the tuple only depends on lineage counts'),
